@@ -14,6 +14,7 @@ import (
 
 	"github.com/atlassian/gostatsd"
 	"github.com/atlassian/gostatsd/pkg/cachedinstances/k8s"
+	"github.com/atlassian/gostatsd/pkg/statsd"
 	"github.com/sirupsen/logrus"
 	core_v1 "k8s.io/api/core/v1"
 	apierrors "k8s.io/apimachinery/pkg/api/errors"
@@ -25,6 +26,7 @@ import (
 	"pgregory.net/rapid"
 
 	"verifharness/internal/ev"
+	"verifharness/internal/fakes"
 	"verifharness/internal/vt"
 )
 
@@ -315,6 +317,27 @@ func TestPodHistories(t *testing.T) {
 					nontrivial = true
 				}
 				memo[ip] = true
+				if len(got.Tags) > 0 && rapid.IntRange(0, 3).Draw(t, "use-answer") == 0 {
+					// the answer is used the way the pipeline uses it: an untagged series takes the instance's tags, then the tag
+					// stage drops some of them. What the provider answers next for this address must not change with that.
+					c := gostatsd.Counter{Value: 1}
+					c.AddTagsSetSource(got.Tags, got.ID)
+					mm := gostatsd.NewMetricMap(false)
+					mm.Counters["used"] = map[string]gostatsd.Counter{gostatsd.FormatTagsKey(c.Source, c.Tags): c}
+					drop := rapid.SampledFrom([]string{"regex:.*", "regex:^[a-m]", "regex:[0-9y]$"}).Draw(t, "drop-tags")
+					th := statsd.NewTagHandler(fakes.NewSink(), nil, []statsd.Filter{{DropTags: gostatsd.StringMatchList{gostatsd.NewStringMatch(drop)}}})
+					th.DispatchMetricMap(context.Background(), mm)
+					again, _ := prov.Peek(gostatsd.Source(ip))
+					history = append(history, fmt.Sprintf("answer used by an untagged series, tag stage drops %q; lookup %s -> %v", drop, ip, describe(again)))
+					var at []string
+					if again != nil {
+						at = append(at, again.Tags...)
+					}
+					sort.Strings(at)
+					if strings.Join(at, "\x00") != strings.Join(wt, "\x00") {
+						fail("C13:tags", "lookup %q returned tags %q after its previous answer had been used by the pipeline (tag stage dropping %q), want %q", ip, at, drop, wt)
+					}
+				}
 			}
 		}
 
